@@ -7,7 +7,7 @@ from . import router as R
 
 BODY = ["", "*", "b", "n", "zz", "s.x", "b.zz", "s", "r", "mp"]
 RESP = ["", "sub", "echo", "echo.n", "zz", "id.x", "sub.zz", "id"]
-CONFLICT = ["none", "same", "samevar", "implicit", "implicitOther", "starOnConcrete", "concreteOnStar"]
+CONFLICT = ["none", "same", "samevar", "implicit", "implicitOther", "starOnConcrete", "concreteOnStar", "leafThenBad", "belowLeafThenBad", "verbLeafThenBad"]
 NAMES = [("vs", "X", "Mx"), ("vs", "Svc", "M"), ("v", "Svc", "Mx"), ("a.b", "S1", "Get_2"), ("vs", "S_x", "M9"),
          ("", "Top", "Call"), ("x.y.z", "A", "B"), ("vs", "Svc", "Aa")]
 
